@@ -520,10 +520,20 @@ int main(int argc, char** argv){
 #ifdef VF_C17
         if(args.mode == "C17"){
             rep.spaces.push_back("instantiations NbData 1..6 x NbRhs {0,1,2,4} x (coordinate,data) types {(double,double),(float,float),(double,float),(float,double)} x dims 1..3 x trees x block sizes; history build/export/accumulate/export/move+rebuild/export/accumulate/export");
+#ifdef VF_C17_LIGHT
+            // sanitizer build (C15): a few instantiations only (compile time)
+            for(long bs : {1L, 2L, 100L}){
+                exportCase<double,double,3,4,4>(3, {0,7,8,27,56,63}, bs, rep, pg);
+                exportCase<double,double,3,3,1>(4, {0,7,448,511,100,200,300}, bs, rep, pg);
+                exportCase<float,double,1,2,4>(5, {0,5,9,15}, bs, rep, pg);
+                exportCase<double,float,2,3,0>(4, {0,5,63,21}, bs, rep, pg);
+            }
+#else
             exportSweep<double,double>(args, rep, pg, ord);
             exportSweep<float,float>(args, rep, pg, ord);
             exportSweep<double,float>(args, rep, pg, ord);
             exportSweep<float,double>(args, rep, pg, ord);
+#endif
         }
 #endif
         (void)ord; (void)thorough;
